@@ -48,7 +48,7 @@ CONF = {
             "style alphabet restricted to strings that do not join into grapheme clusters with their neighbours",
         ],
         "tiers": tiers(8, 6000, 16, 150000, t_fuzz=[{"target": "FuzzC07", "seconds": 180}]),
-        "require_classes": ["mode:fill", "mode:decor", "mode:row", "zero-width-component", "wide-component", "wide-tip", "multi-tip", "row:decorators-exceed-width", "row:pty", "style:spinner"],
+        "require_classes": ["mode:fill", "mode:decor", "mode:row", "zero-width-component", "wide-component", "wide-tip", "multi-tip", "row:decorators-exceed-width", "row:pty", "style:spinner", "mode:frames", "frames:clipped"],
     },
     "C09": {
         "rule": "cases = (initial total over int64 classes, refresh mode none|manual|injected auto, with/without EWMA decorator, 0-40 operations drawn against the reference bar model so that mutators stop at the first terminal state: increments of all 6 flavours incl. negative and boundary amounts, SetCurrent/EwmaSetCurrent, SetTotal(+/-,complete), EnableTriggerComplete, SetRefill, Abort, getters, render cycles); non-trivial = >=3 mutators of >=2 kinds and the trigger flag was touched or the cap at total applied; distinct by FNV-64 of the case JSON",
@@ -89,7 +89,7 @@ CONF = {
         "assumptions": GO_ASSUME + SCHED_ASSUME + ["a worker process that dies (panic in a library goroutine, fatal error) is a violation; the journalled scenario is the replay file", "documented panics (nil reader/writer to a proxy, MustAdd after done, uninitialised WC) are not generated"],
         "crash_is_violation": True,
         "tiers": tiers(8, 1200, 16, 15000, gomaxprocs=[4, 2, 8, 1]),
-        "require_classes": ["refresh:autort", "refresh:autoinj", "refresh:manual", "refresh:none", "done-inside-history", "late-add", "late-write", "late-proxy", "n>q", "call-lost-race-with-done"],
+        "require_classes": ["refresh:autort", "refresh:autoinj", "refresh:manual", "refresh:none", "done-inside-history", "late-add", "late-write", "late-proxy", "n>q", "call-lost-race-with-done", "render-fault"],
     },
     "C14": {
         "rule": "cases = programs with the cancel event (context cancel or Shutdown) (a) as a step anywhere in a sequential program, (b) inside a concurrent phase of 1-3 client goroutines, (c) fired from inside a library hook point (flush of a bar, bar render, render begin/end, heap-manager request, width sent/collected, bar exit) at occurrence 1-12; all refresh modes, 1-6 bars with shutdown-listening decorators under 0-3 wrapper layers, notifier configured or not; non-trivial = the cancel lands after >=1 Add with >=1 listener and an unfinished bar (or inside the library); distinct by FNV-64 of the scenario JSON",
